@@ -151,10 +151,9 @@ func srvOp(rnd *rand.Rand, nkeys int) wop {
 		text := "hash.Incr " + hxs("h"+k) + " " + hxs("f") + " 1"
 		return wop{text, []string{"HINCRBY", "h" + k, "f", "1"}, same(text, intReply)}
 	default:
-		// a non-negative stop: LRANGE of a missing key with a negative bound is listed finding D02, and an
-		// error inside a block cuts the EXEC reply short (D12)
-		text := "list.Range " + hxs("l"+k) + " 0 50"
-		return wop{text, []string{"LRANGE", "l" + k, "0", "50"}, same(text, func(t []string) string {
+		// the key is often missing: a negative stop on a missing key was D02 (repaired)
+		text := "list.Range " + hxs("l"+k) + " 0 -1"
+		return wop{text, []string{"LRANGE", "l" + k, "0", "-1"}, same(text, func(t []string) string {
 			if len(t) >= 1 && strings.HasPrefix(t[0], "*") {
 				out := fmt.Sprintf("ok L %d", len(t)-1)
 				for _, x := range t[1:] {
